@@ -13,5 +13,6 @@ CONSTANTS
   Dev_NoDivisionGuard = TRUE
   Dev_CondSameTypeNoPromotion = FALSE
   Dev_BareAddressMinusRejected = FALSE
+  Dev_SwapReassocClobbers = FALSE
 INVARIANTS Inv_Refines
 CHECK_DEADLOCK FALSE
